@@ -143,4 +143,24 @@ example : NoSat 0 (List.zip [16384, -8192] [0x3F000000, 0x3E800000]) ∧
     projOut16 [16384, -8192] [0x3F000000, 0x3E800000] = 6144 := by
   decide
 
+/-- **proj16_tracks_float** (projection clause; P1, float half).  `sumExactF` is the exact, unrounded value of
+    the float path `Σ (cell_k/32768)·v_k` as a function of the bit patterns (units 2^-164).  When nothing
+    saturates (no `RES2INT16` conversion of a stream sample, no accumulation step), the 16-bit output differs
+    from it by at most one 16-bit LSB per matrix column.  (`projOutF`, the float path WITH its binary32
+    roundings `tmp = (1/32768.f)*cell*v; out += tmp`, is modelled bit-exactly and tied to
+    `mapping_matrix_multiply_channel_out_float`; the distance of `projOutF` from `sumExactF` is the
+    accumulated binary32 rounding, not bounded by a theorem.) -/
+theorem proj16_tracks_float (cells : List Int) (samples : List Nat)
+    (hns : NoSat 0 (List.zip cells samples)) (hc : ∀ p ∈ List.zip cells samples, ConvOk p ∧ p.2 < 2 ^ 32) :
+    |projOut16 cells samples * 2 ^ 149 - sumExactF (List.zip cells samples)| ≤
+      ((List.zip cells samples).length : Int) * 2 ^ 149 :=
+  projOut16_vs_exactF cells samples hns hc
+
+example : ConvOk ((16384 : Int), 0x3F000000) ∧ NoSat 0 (List.zip [16384, -8192] [0x3F000000, 0x3E800000]) :=
+  ⟨⟨by unfold IsInt16; decide, 2 ^ 148, by decide, by decide, by decide⟩, by decide⟩
+
+example : projOut16 [16384, -8192] [0x3F000000, 0x3E800000] = 6144 ∧
+    sumExactF (List.zip [16384, -8192] [0x3F000000, 0x3E800000]) = 6144 * 2 ^ 149 ∧
+    projOutF [16384, -8192] [0x3F000000, 0x3E800000] = 0x3E400000 := by decide
+
 end OpusProps.C13
